@@ -492,3 +492,48 @@ def U_Z_games():
                     games.append(dict(rewards=[st[n_][1] for n_ in names], players=[st[n_][0] for n_ in names],
                                       transition_list=[list(st[n_][2]) for n_ in names], final_states=[idx["W"]]))
     return games
+
+
+def U_G_games():
+    """larger games with few choices: a corridor of 8 probabilistic states (1/2 forward, 1/4 back, 1/4 into a side exit that
+    is lose / win / the start, by pattern) with up to three player states inserted at fixed slots, each offering 'go on' or
+    a shortcut (win, lose, start, or a fair coin); 11-16 states, numbered ascending and descending.  Values need many
+    sweeps to travel and several distant decisions interact."""
+    games = []
+    K = 8
+    slot_opts = [None] + [(who, S) for who in (P1, P2) for S in ("W", "L", "c0", "M")]
+    patterns = ["LLLLLLLL", "LWLWLWLW", "0L0L0L0L", "LLLL0000"]
+    for pat in patterns:
+        for slots in itertools.product(slot_opts, repeat=3):
+            names = []
+            for i in range(K):
+                names.append("c%d" % i)
+                if i in (1, 3, 5) and slots[(i - 1) // 2] is not None:
+                    names.append("p%d" % i)
+            names += ["M", "L", "W"]
+            idx = {nme: k for k, nme in enumerate(names)}
+
+            def after(i):
+                """where 'forward' from corridor state i leads"""
+                if "p%d" % i in idx:
+                    return idx["p%d" % i]
+                return idx["c%d" % (i + 1)] if i + 1 < K else idx["W"]
+
+            st = {}
+            for i in range(K):
+                side = {"L": idx["L"], "W": idx["W"], "0": idx["c0"]}[pat[i]]
+                st["c%d" % i] = (PR, 1 if i % 2 == 0 else 0, [(0.5, after(i)), (0.25, idx["c%d" % max(i - 1, 0)]), (0.25, side)])
+            for i in (1, 3, 5):
+                opt = slots[(i - 1) // 2]
+                if opt is not None:
+                    who, S = opt
+                    tgt = {"W": idx["W"], "L": idx["L"], "c0": idx["c0"], "M": idx["M"]}[S]
+                    st["p%d" % i] = (who, 1, [(ACTIONS[0], idx["c%d" % (i + 1)]), (ACTIONS[1], tgt)])
+            st["M"] = (PR, 2, [(0.5, idx["W"]), (0.5, idx["L"])])
+            st["L"] = (PR, 0, [(1, idx["L"])])
+            st["W"] = (PR, 0, [(1, idx["W"])])
+            g = dict(rewards=[st[n_][1] for n_ in names], players=[st[n_][0] for n_ in names],
+                     transition_list=[list(st[n_][2]) for n_ in names], final_states=[idx["W"]])
+            games.append(g)
+            games.append(_renumber(g, _reverse_perm(len(names))))
+    return games
